@@ -59,5 +59,9 @@ func (f *StringRepeat) Call(s *slip.Scope, args slip.List, depth int) slip.Objec
 	} else {
 		slip.TypePanic(s, depth, "count", args[1], "non-negative fixnum")
 	}
+	if slip.ArrayMaxDimension < count || slip.ArrayMaxDimension < len(str)*count {
+		slip.ErrorPanic(s, depth, "a string of %d repeats of %s would be longer than %d",
+			count, args[0], slip.ArrayMaxDimension)
+	}
 	return slip.String(strings.Repeat(str, count))
 }
